@@ -138,7 +138,7 @@ import z3  # noqa: E402
 
 from pyvc import ops, ty as T  # noqa: E402
 from pyvc.api import cls, trusted  # noqa: E402
-from pyvc.core import Val, fresh, fresh_name, lift  # noqa: E402
+from pyvc.core import Unsupported, Val, fresh, fresh_name, lift  # noqa: E402
 
 from pyvc.api import SPECFNS, specfn  # noqa: E402
 
@@ -392,7 +392,8 @@ def _mtx_contract(tag):
                     "is-table": f"self.otf.get('{tag}') is not None and {tag} == self.otf['{tag}']",
                     "done": f"all({rec('K[a]')} for a in range(i))",
                     "later-absent": f"all(K[a] not in {MT} for a in range(i, len(K)))",
-                    "keys": f"len({MT}) == i and all(list({MT})[a] == K[a] for a in range(i))",
+                    "keys-len": f"len({MT}) == i",
+                    "nothing-else": f"all(g in {_AGM} for g in {MT})",
                 },
             )
         },
@@ -434,3 +435,182 @@ def _mtx_build(tag):
 
 for _tag in ("hmtx", "vmtx"):
     CONTRACTS[f"ufo2ft.outlineCompiler:BaseOutlineCompiler.setupTable_{_tag}#c04"].runtime = Runtime(_mtx_cases(_tag == "vmtx"), _mtx_build(_tag), call=lambda fn, a: fn(a["self"]))
+
+
+# =====================================================================================================
+# maxp: numGlyphs is the length of the glyph order; (TrueType) maxComponentElements / maxComponentDepth are the maxima
+# of the per-glyph component counts / component-tree heights.
+
+from pyvc import models as _models  # noqa: E402
+
+
+def _max_default(ex, st, args, kwargs, node):
+    """builtins.max over a generator expression / with default=: max(<gen>) == max([<gen>]); max(c, default=d) == d if c is
+    empty else max(c)  [python builtin semantics; the engine's own model covers neither form]"""
+    args = [_models.materialize(ex, a) for a in args]
+    base = _models.BUILTIN_MODELS["builtins.max"].model
+    if "default" not in kwargs:
+        return base(ex, st, args, {}, node)
+    (v,) = args
+    info = ex.iter_info(v, st, node)
+    if info.kind != "indexed":
+        raise Unsupported("max(default=) over a non-sequence", node)
+    i, w = z3.Int(fresh_name("mi")), z3.Int(fresh_name("mw"))
+    m = fresh(INT, "max")
+    d = lift(kwargs["default"], INT)
+    st.assume(z3.Implies(info.n > 0, z3.And(w >= 0, w < info.n, lift(info.item(w), INT) == m)))
+    st.assume(z3.ForAll([i], z3.Implies(z3.And(i >= 0, i < info.n), m >= lift(info.item(i), INT))))
+    st.assume(z3.Implies(info.n <= 0, m == d))
+    return Val(INT, m)
+
+
+_RT_GS = [None]
+
+
+@specfn(INT, opaque=True, g=Ref("GlyphV"))
+def comp_depth(g):
+    """height of the glyph's component tree as util.getMaxComponentDepth computes it (opaque in the logic)"""
+    from ufo2ft.util import getMaxComponentDepth
+
+    return getMaxComponentDepth(getattr(g, "_obj", g), _RT_GS[0])
+
+
+@specfn(BOOL, opaque=True, g=Ref("GlyphV"))
+def comp_cyclic(g):
+    """util.getMaxComponentDepth raises InvalidFontData on this glyph (a component cycle is reachable)"""
+    from ufo2ft.errors import InvalidFontData
+    from ufo2ft.util import getMaxComponentDepth
+
+    try:
+        getMaxComponentDepth(getattr(g, "_obj", g), _RT_GS[0])
+    except InvalidFontData:
+        return True
+    return False
+
+
+@trusted("c04.getMaxComponentDepth", "summary of ufo2ft.util.getMaxComponentDepth(glyph, glyphSet) at its call site in getMaxComponentDepths: a non-negative "
+         "integer that is a function of the glyph (glyph set unchanged), or InvalidFontData; its VALUE (tree height, cycle detection) is "
+         "characterised only by the exhaustive small-scope check of vcheck/hooks/c02.py")
+def _gmcd(ex, st, args, kwargs, node):
+    g = lift(args[0])
+    ex.safety(st, z3.Not(ex.spec_decl(SPECFNS["comp_cyclic"])(g)), "InvalidFontData", node)
+    d = ex.spec_decl(SPECFNS["comp_depth"])(g)
+    st.assume(d >= 0)
+    return Val(INT, d)
+
+
+from pyvc.symex import FuncRef  # noqa: E402
+
+CLASSES["GlyphV"].fields.update({"components": List(Ref("ComponentV"))})
+cls("ComponentV", fields={"baseGlyph": STR}, notes="component reference (identity only)")
+cls("OutlineCompilerT", fields={"otf": Ref("TTFont"), "tables": Set(STR), "allGlyphs": Ref("GlyphSetV"), "glyphOrder": List(STR),
+                                "_maxComponentDepths": Opt(Dict(STR, INT))},
+    repo="ufo2ft.outlineCompiler:OutlineTTFCompiler", notes="OutlineTTFCompiler as maxp / post see it")
+cls("OutlineCompilerO", fields={"otf": Ref("TTFont"), "tables": Set(STR), "glyphOrder": List(STR)},
+    repo="ufo2ft.outlineCompiler:OutlineOTFCompiler", notes="OutlineOTFCompiler as maxp sees it")
+
+_MP = "self.otf['maxp']"
+contract(
+    "ufo2ft.outlineCompiler:OutlineOTFCompiler.setupTable_maxp",
+    props=["C04"],
+    params={"self": Ref("OutlineCompilerO")},
+    requires=["'maxp' in self.tables"],
+    ensures={"num-glyphs": f"{_MP}.numGlyphs == len(self.glyphOrder)", "version": f"{_MP}.tableVersion == 0x00005000"},
+    canaries={"one-glyph": f"{_MP}.numGlyphs == 1"},
+    runtime=Runtime(lambda rng, n: [{"glyphs": rtlib.rand_glyphs(rng)} for _ in range(n)], lambda d: {"self": rtlib.outline_compiler(d, "otf")}, call=lambda fn, a: fn(a["self"])),
+)
+
+
+def _depths_ok(d):
+    """d is exactly the map name -> component-tree height of the composite glyphs"""
+    return (f"all(g in {_AGM} and {d}[g] == comp_depth({_AGM}[g]) and {d}[g] > 0 for g in {d})"
+            f" and all(implies(comp_depth({_AGM}[g]) > 0, g in {d}) for g in {_AGM})")
+
+
+_NO_CYCLE = f"not any(comp_cyclic({_AGM}[g]) for g in {_AGM})"
+# the cache is written by getMaxComponentDepths only (and initialised to None by __init__): a cached map is one it computed
+_CACHE_OK = f"self._maxComponentDepths is None or (({_depths_ok('self._maxComponentDepths')}) and {_NO_CYCLE})"
+_GMCD_GLOBALS = {"getMaxComponentDepth": Val.obj(FuncRef(None, "c04.getMaxComponentDepth"))}
+
+contract(
+    "ufo2ft.outlineCompiler:OutlineTTFCompiler.getMaxComponentDepths",
+    props=["C04"],
+    params={"self": Ref("OutlineCompilerT")},
+    returns=Opt(Dict(STR, INT)),
+    globals=_GMCD_GLOBALS,
+    requires=[_CACHE_OK],
+    modifies=["OutlineCompilerT._maxComponentDepths"],
+    ensures={
+        "is-a-dict": "result is not None",
+        "exact": _depths_ok("result"),
+        "cached": "self._maxComponentDepths == result",
+    },
+    raises={"InvalidFontData": f"any(comp_cyclic({_AGM}[g]) for g in {_AGM})"},
+    canaries={"empty": "len(result) == 0"},
+    locals={"maxComponentDepths": Dict(STR, INT)},
+    loops={
+        "for (name, glyph) in self.allGlyphs.items()": Loop(
+            index="i", seq="K",
+            invariants={
+                "sub": f"all(any(K[a] == g for a in range(i)) and maxComponentDepths[g] == comp_depth({_AGM}[g]) and maxComponentDepths[g] > 0 for g in maxComponentDepths)",
+                "sup": f"all(implies(comp_depth({_AGM}[K[a]]) > 0, K[a] in maxComponentDepths) for a in range(i))",
+                "no-cycle": f"all(not comp_cyclic({_AGM}[K[a]]) for a in range(i))",
+            },
+        )
+    },
+)
+
+_NCOMP = f"len({_AGM}[g].components)"
+contract(
+    "ufo2ft.outlineCompiler:OutlineTTFCompiler.setupTable_maxp",
+    props=["C04"],
+    params={"self": Ref("OutlineCompilerT")},
+    models={"builtins.max": _max_default},
+    requires=[
+        "'maxp' in self.tables",
+        _CACHE_OK,
+        # '.notdef' is always in the glyph set (makeMissingRequiredGlyphs, contract under C03): max() of an empty sequence raises
+        f"len({_AGM}) > 0",
+    ],
+    modifies=["OutlineCompilerT._maxComponentDepths"],
+    ensures={
+        "num-glyphs": f"{_MP}.numGlyphs == len(self.glyphOrder)",
+        "max-component-elements": f"all({_MP}.maxComponentElements >= {_NCOMP} for g in {_AGM}) and any({_MP}.maxComponentElements == {_NCOMP} for g in {_AGM})",
+        "max-component-depth": f"all({_MP}.maxComponentDepth >= comp_depth({_AGM}[g]) for g in {_AGM})"
+        f" and (any({_MP}.maxComponentDepth == comp_depth({_AGM}[g]) for g in {_AGM}) or {_MP}.maxComponentDepth == 0)",
+        "version": f"{_MP}.tableVersion == 0x00010000",
+        "no-instructions": f"{_MP}.maxZones == 1 and {_MP}.maxTwilightPoints == 0 and {_MP}.maxStorage == 0 and {_MP}.maxFunctionDefs == 0"
+        f" and {_MP}.maxInstructionDefs == 0 and {_MP}.maxStackElements == 0 and {_MP}.maxSizeOfInstructions == 0",
+    },
+    raises={"InvalidFontData": f"any(comp_cyclic({_AGM}[g]) for g in {_AGM})"},
+    canaries={"no-composites": f"{_MP}.maxComponentDepth == 0"},
+)
+
+
+def _maxp_cases(rng, n):
+    out = []
+    for k in range(n):
+        g = rtlib.rand_glyphs(rng, n=rng.randint(0, 5))
+        names = sorted(g)
+        for nm in names:
+            if rng.random() < 0.5 and len(names) > 1:
+                g[nm]["components"] = [[rng.choice(names), [1, 0, 0, 1, rng.choice([0, 10]), 0]] for _ in range(rng.randint(1, 3))]
+                if k % 3:  # mostly acyclic: only refer to later names
+                    g[nm]["components"] = [c for c in g[nm]["components"] if c[0] > nm]
+        out.append({"glyphs": g, "cached": k % 5 == 4})
+    return out
+
+
+def _maxp_build(d):
+    comp = rtlib.outline_compiler(d, "ttf")
+    _RT_GS[0] = comp.allGlyphs
+    if d.get("cached"):
+        try:
+            comp.getMaxComponentDepths()
+        except Exception:
+            pass
+    return {"self": comp}
+
+
+for _m in ("getMaxComponentDepths", "setupTable_maxp"):
+    CONTRACTS[f"ufo2ft.outlineCompiler:OutlineTTFCompiler.{_m}"].runtime = Runtime(_maxp_cases, _maxp_build, call=lambda fn, a: fn(a["self"]))
